@@ -315,104 +315,170 @@ def check_transform(rep: Report, ix):
 
 
 def check_normalize(rep: Report, ix):
+    """normalize_point interpreted with pdelint/npsem.py (numpy semantics on arrays of symbols): every combination of
+    periodicity flags (1-3 axes), reflect on/off, and the point given as a scalar (1 axis), a single point and a batch"""
+    import itertools as _it
+
+    import numpy as _np
+
+    from .. import npsem as ns
+
     f = ix.func(BASE, "GridBase.normalize_point")
     rep.saw("functions", f.ref)
-    forms = {}
-    for n_axes in (1, 2):
-        for periodic, reflect in ((True, False), (False, True), (False, False)):
-            g = make_grid_model(ix, "CartesianGrid", n_axes, periodic=[periodic] * n_axes)
-            it = Interp(ix)
-            p = [sp.Symbol(f"p{k}", real=True) for k in range(n_axes)]
-            pt = PointVec(list(p))
-
-            class Pt(Model):
-                pass
-
-            shape = (n_axes,)
-            point = Model("point", {"size": n_axes, "ndim": 1, "shape": shape, "__lazy_pt__": pt})
-            it.np["asarray"] = lambda x, **k: x
-            it.np["array"] = lambda x, *a, **k: Vec([Vec(list(r)) if isinstance(r, (tuple, list)) else r for r in x]) if isinstance(x, (tuple, list)) else x
-            # a point supports arithmetic (1 axis) and component stores (n axes)
-            box = {"v": list(p)}
-            if n_axes == 1:
-                arg = sp.Symbol("p0", real=True)
-                orig_getattr = it.getattr
-
-                def getattr_(obj, attr, node=None):
-                    if isinstance(obj, sp.Basic) and attr in ("size", "ndim", "shape"):
-                        return {"size": 1, "ndim": 0, "shape": ()}[attr]
-                    return orig_getattr(obj, attr, node)
-
-                it.getattr = getattr_
-                try:
-                    r = it.call(it.getattr(g, "normalize_point"), (arg,), {"reflect": reflect})
-                except (Unsupported, RaisedInCode) as e:
-                    raise AnalysisError(f"{f.ref} [1 axis]: {e}") from e
-                forms[(n_axes, periodic, reflect)] = [it.as_expr(r)]
-            else:
-                store = Model(
-                    "point",
-                    {
-                        "size": n_axes,
-                        "ndim": 1,
-                        "shape": shape,
-                        "__getitem__": lambda key: box["v"][to_py([k for k in key if k is not Ellipsis][0])],
-                        "__setitem__": lambda key, v, aug, st: box["v"].__setitem__(to_py([k for k in key if k is not Ellipsis][0]), it.as_expr(v)),
-                    },
-                )
-                try:
-                    it.call(it.getattr(g, "normalize_point"), (store,), {"reflect": reflect})
-                except (Unsupported, RaisedInCode) as e:
-                    raise AnalysisError(f"{f.ref} [{n_axes} axes]: {e}") from e
-                forms[(n_axes, periodic, reflect)] = list(box["v"])
-    # templates
-    for (n_axes, periodic, reflect), vals in forms.items():
-        g = make_grid_model(ix, "CartesianGrid", n_axes)
-        for k, v in enumerate(vals):
-            lo, hi = g._attrs["axes_bounds"][k]
-            L = hi - lo
-            p = sp.Symbol(f"p{k}", real=True)
-            if periodic:
-                want = sp.Mod(p - lo, L) + lo
-                what = "periodic: x_min + ((p - x_min) mod L)  => in [x_min, x_max), identity there, moves by whole periods"
-            elif reflect:
-                want = lo + sp.Abs(sp.Mod(p - hi, 2 * L) - L)
-                what = "reflect: x_min + |((p - x_max) mod 2L) - L|  => in [x_min, x_max], identity there, moves by reflections"
-            else:
-                want = p
-                what = "neither periodic nor reflect: unchanged"
-            ok = sp.simplify(v - want) == 0
-            rep.oblige(f"normalize_point:{n_axes}-axes:{'periodic' if periodic else ('reflect' if reflect else 'plain')}:axis{k}", ok, str(v))
-            if not ok:
-                rep.violation("C12.normalize-point", f"{f.ref}::{'periodic' if periodic else ('reflect' if reflect else 'plain')}::{n_axes}-axes", f"normalize_point ({n_axes} axes, axis {k}) computes `{v}`; required template {what}, i.e. `{want}`")
-    rep.sample({"normalize_point": {str(k): [str(x) for x in v] for k, v in forms.items()}})
+    m = f.module
+    scope_vars = {n: ns.Opaque(n) for n in list(m.imports) + list(m.functions) + list(m.classes) + list(m.assigns) if "." not in n}
+    scope_vars["np"] = ns.NP
+    n_cases = 0
+    shown = 0
+    for n_axes in (1, 2, 3):
+        lo = [sp.Symbol(f"lo{k}", real=True) for k in range(n_axes)]
+        L = [sp.Symbol(f"L{k}", positive=True) for k in range(n_axes)]
+        hi = [a + b for a, b in zip(lo, L)]
+        for flags in _it.product((False, True), repeat=n_axes):
+            for reflect in (False, True):
+                shapes = [(n_axes,), (2, n_axes)] + ([()] if n_axes == 1 else [])
+                for shape in shapes:
+                    pt = ns.sym_array("p", shape, real=True) if shape else sp.Symbol("p", real=True)
+                    orig = pt.copy() if shape else pt
+                    grid = ns.Stub("grid", axes_bounds=tuple((a, b) for a, b in zip(lo, hi)), periodic=list(flags), num_axes=n_axes, __kind__=("GridBase",))
+                    sem = ns.NpSem(where=f.ref)
+                    mode = f"{n_axes}-axes:periodic={flags}:reflect={reflect}:point{shape}"
+                    try:
+                        res = sem.run_function(f.node, {}, (grid, pt), {"reflect": reflect}, outer=ns.Scope(scope_vars))
+                    except ns.Raised as e:
+                        rep.oblige(f"normalize_point:{mode}", False, e.what)
+                        rep.violation("C12.normalize-point", f"{f.ref}::raises::{n_axes}-axes", f"normalize_point raises `{e.what}` for {mode}")
+                        continue
+                    except ns.Unsupported as e:
+                        raise AnalysisError(f"{f.ref} [{mode}]: {e}") from e
+                    n_cases += 1
+                    res = _np.asarray(res, dtype=object)
+                    o = _np.asarray(orig, dtype=object)
+                    if res.shape != o.shape:
+                        rep.oblige(f"normalize_point:{mode}", False, f"shape {res.shape}")
+                        rep.violation("C12.normalize-point", f"{f.ref}::shape::{n_axes}-axes", f"normalize_point returns shape {res.shape} for a point of shape {o.shape} ({mode})")
+                        continue
+                    bad = None
+                    for idx in _np.ndindex(o.shape) if o.shape else [()]:
+                        k = idx[-1] if idx else 0
+                        p = o[idx]
+                        if flags[k]:
+                            want = lo[k] + sp.Mod(p - lo[k], L[k])
+                            what = "periodic axis: x_min + ((p - x_min) mod L) -- in [x_min, x_max), identity there, moves by whole periods (also when reflect=True)"
+                        elif reflect:
+                            want = lo[k] + sp.Abs(sp.Mod(p - hi[k], 2 * L[k]) - L[k])
+                            what = "non-periodic axis with reflect: x_min + |((p - x_max) mod 2L) - L| -- in [x_min, x_max], identity there, moves by reflections"
+                        else:
+                            want = p
+                            what = "non-periodic axis without reflect: unchanged"
+                        if sp.simplify(sp.expand(sp.sympify(res[idx]) - want)) != 0:
+                            bad = (k, res[idx], want, what)
+                            break
+                    rep.oblige(f"normalize_point:{mode}", bad is None, None if bad is None else str(bad[1]))
+                    if bad is not None:
+                        k, got, want, what = bad
+                        kind = "periodic" if flags[k] else ("reflect" if reflect else "plain")
+                        rep.violation(
+                            "C12.normalize-point",
+                            f"{f.ref}::{kind}::{n_axes}-axes",
+                            f"normalize_point ({mode}), axis {k}: computes `{got}`; required template {what}, i.e. `{want}`",
+                        )
+                    elif shown < 3 and any(flags) and reflect:
+                        shown += 1
+                        rep.sample({"normalize_point": mode, "result": [str(x) for x in res.ravel()][:4]})
+    rep.floor("normalize_point cases (flags x reflect x point shapes)", n_cases, 60)
 
 
 def check_integrate(rep: Report, ix):
+    """GridBase.integrate interpreted with pdelint/npsem.py on arrays of distinct symbols: for Cartesian (scalar cell
+    extents, 1-3 axes), cylindrical-like (array, scalar) and spherical-like (array,) cell_volume_data, data of rank 0
+    and 1 (and a plain number), and every selection of axes (None, int, tuples): each entry of the result must be the
+    sum over the integrated grid axes of data times the cell-volume factors of exactly those axes."""
+    import functools as _ft
+    import itertools as _it
+
+    import numpy as _np
+
+    from .. import npsem as ns
+
     f = ix.func(BASE, "GridBase.integrate")
     rep.saw("functions", f.ref)
-    w = [sp.Symbol(f"w{k}", positive=True) for k in range(3)]
-    for n_axes in (1, 2, 3):
-        for axes in [None] + [c for r in range(1, n_axes + 1) for c in itertools.combinations(range(n_axes), r)]:
-            g = make_grid_model(ix, "CartesianGrid", n_axes)
-            g._attrs["cell_volume_data"] = tuple(w[:n_axes])
-            g._attrs["_mesh"] = None
-            got = {}
-            it = Interp(ix)
-            it.overrides["functools"] = {"reduce": lambda fn, seq: list(seq)}
-            it.np["outer"] = "np.outer"
-            data = Model("data", {"ndim": n_axes, "__isinstance__": lambda c: True, "__binop__": lambda op, me, other, refl: Model("prod", {"sum": lambda axis=None: got.setdefault("r", (other, axis))})})
-            try:
-                it.call(it.getattr(g, "integrate"), (data,), {"axes": (axes if axes is None or len(axes) > 1 else axes[0])})
-            except (Unsupported, RaisedInCode) as e:
-                raise AnalysisError(f"{f.ref}: {e}") from e
-            weights, sum_axes = got.get("r", (None, None))
-            want = [w[k] if (axes is None or k in axes) else 1 for k in range(n_axes)]
-            ok = weights is not None and [sp.sympify(x) for x in weights] == [sp.sympify(x) for x in want]
-            ok_axes = (sum_axes is None and axes is None) or (sum_axes is not None and tuple(sum_axes) == tuple(axes or ()))
-            rep.oblige(f"integrate:{n_axes}-axes:axes={axes}: weights are the cell-volume factors of the integrated axes", ok and ok_axes, {"weights": str(weights), "sum over": str(sum_axes)})
-            if not (ok and ok_axes):
-                rep.violation("C12.integrate-weights", f"{f.ref}::axes={axes}::{n_axes}-axes", f"integrate(axes={axes}) on {n_axes} axes multiplies by {weights} and sums over {sum_axes}; expected weights {want} summed over {axes}")
+    m = f.module
+    scope_vars = {n: ns.Opaque(n) for n in list(m.imports) + list(m.functions) + list(m.classes) + list(m.assigns) if "." not in n}
+    scope_vars["np"] = ns.NP
+    scope_vars["functools"] = ns.Stub("functools", reduce=lambda fn, seq: _ft.reduce(fn, list(seq)))
+    configs = [
+        ("cartesian/1", (2,), ["s"]),
+        ("cartesian/2", (2, 3), ["s", "s"]),
+        ("cartesian/3", (2, 3, 2), ["s", "s", "s"]),
+        ("cylindrical", (2, 3), ["a", "s"]),
+        ("spherical", (3,), ["a"]),
+    ]
+    n_cases = 0
+    for name, shape, kinds in configs:
+        n_axes = len(shape)
+        cvd = []
+        for k, kind in enumerate(kinds):
+            cvd.append(sp.Symbol(f"w{k}", positive=True) if kind == "s" else ns.sym_array(f"w{k}", (shape[k],), positive=True))
+
+        def weight(k, i):
+            return cvd[k] if kinds[k] == "s" else cvd[k][i]
+
+        vols = _np.empty(shape, dtype=object)
+        for idx in _np.ndindex(shape):
+            vols[idx] = sp.Mul(*[weight(k, idx[k]) for k in range(n_axes)])
+        axes_choices = [None] + list(range(n_axes)) + [c for r in range(1, n_axes + 1) for c in _it.combinations(range(n_axes), r)]
+        for rank in (0, 1, "number"):
+            for axes in axes_choices:
+                if rank == "number":
+                    data = 1
+                    d = _np.empty(shape, dtype=object)
+                    d[...] = sp.Integer(1)
+                    lead = ()
+                else:
+                    lead = (2,) * rank
+                    data = ns.sym_array("u", lead + shape)
+                    d = data.copy()
+                grid = ns.Stub("grid", shape=shape, num_axes=n_axes, cell_volume_data=tuple(cvd), cell_volumes=vols.copy(), _mesh=None, __kind__=("GridBase",))
+                sem = ns.NpSem(where=f.ref)
+                tag = f"integrate:{name}:rank={rank}:axes={axes}"
+                try:
+                    res = sem.run_function(f.node, {}, (grid, data), {"axes": axes}, outer=ns.Scope(scope_vars))
+                except ns.Raised as e:
+                    rep.oblige(tag, False, e.what)
+                    rep.violation("C12.integrate-weights", f"{f.ref}::raises::{name}", f"{tag}: integrate raises `{e.what}`")
+                    continue
+                except ns.Unsupported as e:
+                    raise AnalysisError(f"{f.ref} [{tag}]: {e}") from e
+                n_cases += 1
+                A = tuple(range(n_axes)) if axes is None else ((axes,) if isinstance(axes, int) else tuple(axes))
+                kept = [k for k in range(n_axes) if k not in A]
+                want = _np.empty(lead + tuple(shape[k] for k in kept), dtype=object)
+                for oidx in _np.ndindex(want.shape):
+                    comp, kidx = oidx[: len(lead)], oidx[len(lead) :]
+                    tot = sp.Integer(0)
+                    for iidx in _it.product(*[range(shape[k]) for k in A]):
+                        full = [None] * n_axes
+                        for k, v in zip(kept, kidx):
+                            full[k] = v
+                        for k, v in zip(A, iidx):
+                            full[k] = v
+                        tot += d[comp + tuple(full)] * sp.Mul(*[weight(k, full[k]) for k in A])
+                    want[oidx] = sp.expand(tot)
+                got = _np.asarray(res, dtype=object)
+                diff = ns.arrays_equal(got, want)
+                rep.oblige(tag + ": sum over the integrated axes with the cell-volume factors of those axes", not diff, None if not diff else str(diff[0])[:200])
+                if diff:
+                    if diff[0][0] == "shape":
+                        msg = f"result has shape {diff[0][1]}, expected {diff[0][2]}"
+                    else:
+                        msg = f"entry {tuple(diff[0][0])} is `{diff[0][1]}`, expected `{diff[0][2]}`"
+                    rep.violation(
+                        "C12.integrate-weights",
+                        f"{f.ref}::{name}::rank={rank}::axes={'all' if axes is None else 'explicit'}",
+                        f"{tag}: {msg} (u = data entries with component indices first, w<k> = cell-volume factor of grid axis k): the weights or the summation axes do not belong to the integrated grid axes",
+                    )
+    rep.floor("integrate cases (grid kinds x data rank x axes selections)", n_cases, 80)
 
 
 def check_difference_vector(rep: Report, ix):
